@@ -115,8 +115,9 @@ def denote(vocab, ctx, s):
             for k, t in typed:
                 fields = [[key, val] for (key, _), val in zip(vocab.types[t], k.split('/'))]
                 cur = [k, t, fields]
-                if qchoice:
-                    cur = apply_q(vocab, ctx, k, t, fields, list(qchoice), qtext)
+                eff = [(kk, vv) for kk, vv in qchoice if vv != '']      # a pair with an empty value is ignored by the query parser (blank values are dropped)
+                if eff:
+                    cur = apply_q(vocab, ctx, k, t, fields, eff, qtext)
                     if cur is None:
                         continue
                 bt = cur[1].split(sep)[0]
